@@ -5,8 +5,11 @@ import (
 	"crypto"
 	"crypto/ecdsa"
 	"crypto/elliptic"
+	"crypto/md5"
 	"crypto/rand"
 	"crypto/rsa"
+	"crypto/sha256"
+	"crypto/sha3"
 	"encoding/json"
 	"errors"
 	"fmt"
@@ -30,6 +33,7 @@ type ForeignParams struct {
 	PubForm  string `json:"pubForm,omitempty"`  // EC: point form of that optional public key: "" uncompressed | compressed | hybrid (SEC 1 2.3.3)
 	Pad      string `json:"pad,omitempty"`      // EC scalar: fixed | stripped | extra
 	Sig      string `json:"sig,omitempty"`      // signature algorithm name; default SHA-256 of the signer's family
+	CsrSig   string `json:"csrSig,omitempty"`   // signature of the request: "" default | sha224 | md5 | sha3-256
 	MultiRDN bool   `json:"multiRDN,omitempty"` // the certificate's subject starts with a multi-valued RDN
 	AltDN    bool   `json:"altDN,omitempty"`    // the certificate's subject text differs from the config's subject
 	Order    string `json:"order,omitempty"`    // "" certificate first | key-first (as some tools write it)
@@ -294,10 +298,49 @@ func buildCert(subjectDN, issuerDN []byte, spki []byte, signer crypto.Signer, si
 }
 
 func buildCSR(subjectDN []byte, k *genKeyT) ([]byte, error) {
+	return buildCSRSig(subjectDN, k, "")
+}
+
+// buildCSRSig: a request signed with the default algorithm ("") or with one that many libraries
+// (Go's among them) can no longer or not yet verify - which says nothing about the request's key.
+func buildCSRSig(subjectDN []byte, k *genKeyT, how string) ([]byte, error) {
 	info := derSeq(derSmallInt(0), subjectDN, k.spki(), derTLV(0xa0))
-	alg, sig, err := signWith(k.priv, k.fam, "", info)
+	if how == "" {
+		alg, sig, err := signWith(k.priv, k.fam, "", info)
+		if err != nil {
+			return nil, err
+		}
+		return derSeq(info, alg, derBitString(sig)), nil
+	}
+	var dg []byte
+	var h crypto.Hash
+	var oidRSAs, oidECs string
+	switch how {
+	case "sha224":
+		x := sha256.Sum224(info)
+		dg, h, oidRSAs, oidECs = x[:], crypto.SHA224, "1.2.840.113549.1.1.14", "1.2.840.10045.4.3.1"
+	case "md5":
+		x := md5.Sum(info)
+		dg, h, oidRSAs, oidECs = x[:], crypto.MD5, "1.2.840.113549.1.1.4", "1.2.840.10045.4.3.1"
+		if k.fam != "rsa" {
+			y := sha256.Sum224(info)
+			dg, h = y[:], crypto.SHA224
+		}
+	default: // sha3-256 (ECDSA); RSA falls back to sha224
+		x := sha3.Sum256(info)
+		dg, h, oidRSAs, oidECs = x[:], crypto.SHA3_256, "1.2.840.113549.1.1.14", "2.16.840.1.101.3.4.3.10"
+		if k.fam == "rsa" {
+			y := sha256.Sum224(info)
+			dg, h = y[:], crypto.SHA224
+		}
+	}
+	sig, err := k.priv.Sign(rand.Reader, dg, h)
 	if err != nil {
 		return nil, err
+	}
+	alg := derSeq(derOIDBytes(oidECs))
+	if k.fam == "rsa" {
+		alg = derSeq(derOIDBytes(oidRSAs), derNull())
 	}
 	return derSeq(info, alg, derBitString(sig)), nil
 }
@@ -453,7 +496,7 @@ func buildForeignArtifact(w *World, e *EntitySpec, arg string) ([]byte, error) {
 		if p.Odd == "csr-empty-subject" {
 			csrSubj = derSeq()
 		}
-		csr, err := buildCSR(csrSubj, k)
+		csr, err := buildCSRSig(csrSubj, k, p.CsrSig)
 		if err != nil {
 			return nil, err
 		}
